@@ -1,6 +1,9 @@
 package sim
 
 import (
+	slashingtypes "github.com/cosmos/cosmos-sdk/x/slashing/types"
+	stakingtypes "github.com/cosmos/cosmos-sdk/x/staking/types"
+	reportertypes "github.com/tellor-io/layer/x/reporter/types"
 	"math/big"
 	"time"
 
@@ -278,6 +281,68 @@ func init() {
 			return nil
 		}
 		return []func() [][]byte{wait, wait, wait, wait, wait, wait, tip, rep(0), jump, rep(1, 2), rep(3, 0), wait}
+	}
+	// offParOrigins: three users with odd-sized delegations to the smallest validator select the strongest reporter; the
+	// validator then misses blocks (downtime slash 1 %, jail), is unjailed and bonded again with shares worth slightly
+	// less than one token each, and the reporter keeps reporting: its stake snapshots now hold several fractional
+	// origins on one validator
+	fragments["offParOrigins"] = func(g *Gen) []func() [][]byte {
+		wait := func() [][]byte { return nil }
+		n := g.c.W.Cfg.NumVals
+		if n < 3 || len(g.c.W.Users) < 6 {
+			return nil
+		}
+		small, rep := g.c.W.Vals[n-1], g.c.W.Vals[0].Op
+		users := g.c.W.Users[len(g.c.W.Users)-3:]
+		amts := []int64{1_234_567, 7_654_321, 3_333_331}
+		delegate := func() [][]byte {
+			var out [][]byte
+			for i, u := range users {
+				if !g.tb.Used(u) {
+					out = append(out, g.tx(u, &stakingtypes.MsgDelegate{DelegatorAddress: u.Bech(), ValidatorAddress: small.ValAdr.String(), Amount: sdk.NewInt64Coin(Denom, amts[i])}))
+				}
+			}
+			return out
+		}
+		sel := func() [][]byte {
+			var out [][]byte
+			for _, u := range users {
+				if !g.tb.Used(u) {
+					out = append(out, g.tx(u, &reportertypes.MsgSelectReporter{SelectorAddress: u.Bech(), ReporterAddress: rep.Bech()}))
+				}
+			}
+			return out
+		}
+		down := func() [][]byte {
+			g.downVal, g.downUntil, g.downDone = string(small.ConsAdr), g.c.Height+10, true
+			return nil
+		}
+		unjail := func() [][]byte {
+			g.ForceGap = 70 * time.Second
+			if g.tb.Used(small.Op) {
+				return nil
+			}
+			return [][]byte{g.tx(small.Op, slashingtypes.NewMsgUnjail(small.ValAdr.String()))}
+		}
+		report := func() [][]byte {
+			if g.tb.Used(rep) {
+				return nil
+			}
+			cq, err := g.c.App.OracleKeeper.GetCurrentQueryInCycleList(g.c.CommittedCtx())
+			if err != nil {
+				return nil
+			}
+			return [][]byte{g.tx(rep, &oracletypes.MsgSubmitValue{Creator: rep.Bech(), QueryData: cq, Value: Uint256Value(big.NewInt(4242))})}
+		}
+		steps := []func() [][]byte{wait, wait, wait, wait, wait, wait, delegate, sel, down}
+		for i := 0; i < 13; i++ {
+			steps = append(steps, wait)
+		}
+		steps = append(steps, unjail, unjail, wait, wait)
+		for i := 0; i < 10; i++ {
+			steps = append(steps, report)
+		}
+		return steps
 	}
 	fragments["mintInit"] = func(g *Gen) []func() [][]byte {
 		// give the chain a few blocks first
